@@ -238,9 +238,93 @@ Proof.
   - intros a Ha. pose proof (J_snapfresh s HI a Ha) as Z. rewrite (snap_handles_set_none a _ i h H), Hs in Z. lia.
 Qed.
 
+(* ---- operations that move handles into the call (BuildMove, InsertMove) *)
+Fixpoint rh_l (l : list (option handle)) (hs : list nat) {struct hs} : option (list N) :=
+  match hs with
+  | [] => Some []
+  | h :: t => match nth_error l h, rh_l l t with
+              | Some (Some (HRegion r)), Some rs => Some (r :: rs)
+              | _, _ => None end
+  end.
+Lemma region_handles_rh s : forall hs, region_handles s hs = rh_l (handles s) hs.
+Proof.
+  induction hs as [|h t IH]; cbn [region_handles rh_l]; [reflexivity|]. unfold get_handle. rewrite IH.
+  destruct (nth_error (handles s) h) as [[[r|rs|a]|]|]; reflexivity.
+Qed.
+Lemma existsb_eqb_false x t : existsb (Nat.eqb x) t = false -> ~ In x t.
+Proof.
+  intros H Hin. assert (E : existsb (Nat.eqb x) t = true) by (apply existsb_exists; exists x; split; [exact Hin|apply Nat.eqb_refl]).
+  congruence.
+Qed.
+Lemma rh_l_set l h v : forall t, ~ In h t -> rh_l (set_nth l h v) t = rh_l l t.
+Proof.
+  induction t as [|j t IH]; intros Hn; cbn [rh_l]; [reflexivity|].
+  rewrite IH by (intros Hc; apply Hn; right; exact Hc). rewrite nth_error_set_nth.
+  destruct (Nat.eqb_spec h j) as [->|_]; [exfalso; apply Hn; left; reflexivity|reflexivity].
+Qed.
+Lemma kill_length : forall hs l, length (kill hs l) = length l.
+Proof. induction hs as [|h t IH]; intros l; cbn [kill]; [reflexivity|]. rewrite IH. apply set_nth_length. Qed.
+Lemma kill_facts r : forall hs l rs, nodupb hs = true -> rh_l l hs = Some rs ->
+  hrefs r l = (hrefs r (kill hs l) + count r rs)%nat /\ (forall a, snap_handles a (kill hs l) = snap_handles a l).
+Proof.
+  induction hs as [|h t IH]; intros l rs Hd Hr; cbn [kill rh_l nodupb] in *.
+  - inversion Hr; subst. cbn [count]. split; [lia|reflexivity].
+  - apply andb_true_iff in Hd. destruct Hd as [Hn Hd]. apply negb_true_iff in Hn. apply existsb_eqb_false in Hn.
+    destruct (nth_error l h) as [[[r0|?|?]|]|] eqn:En; try discriminate.
+    destruct (rh_l l t) as [rs'|] eqn:Et; [|discriminate]. inversion Hr; subst rs. clear Hr.
+    destruct (IH (set_nth l h None) rs' Hd ltac:(rewrite rh_l_set by exact Hn; exact Et)) as [A B].
+    split.
+    + rewrite (hrefs_set_none r l h _ En), A. cbn [href count]. lia.
+    + intros a. rewrite B. pose proof (snap_handles_set_none a l h _ En) as Q. cbn [is_snap] in Q. lia.
+Qed.
+Lemma rh_l_lookup l : forall hs rs h, rh_l l hs = Some rs -> In h hs -> exists r, nth_error l h = Some (Some (HRegion r)) /\ In r rs.
+Proof.
+  induction hs as [|j t IH]; intros rs h Hr Hin; [destruct Hin|]. cbn [rh_l] in Hr.
+  destruct (nth_error l j) as [[[r0|?|?]|]|] eqn:En; try discriminate.
+  destruct (rh_l l t) as [rs'|] eqn:Et; [|discriminate]. inversion Hr; subst rs.
+  destruct Hin as [->|Hin]; [exists r0; split; [exact En|left; reflexivity]|].
+  destruct (IH rs' h eq_refl Hin) as (r & A & B). exists r. split; [exact A|right; exact B].
+Qed.
+Lemma rh_l_In l : forall hs rs r, rh_l l hs = Some rs -> In r rs -> exists h, In h hs /\ nth_error l h = Some (Some (HRegion r)).
+Proof.
+  induction hs as [|j t IH]; intros rs r Hr Hin; cbn [rh_l] in Hr; [inversion Hr; subst; destruct Hin|].
+  destruct (nth_error l j) as [[[r0|?|?]|]|] eqn:En; try discriminate.
+  destruct (rh_l l t) as [rs'|] eqn:Et; [|discriminate]. inversion Hr; subst rs.
+  destruct Hin as [<-|Hin]; [exists j; split; [left; reflexivity|exact En]|].
+  destruct (IH rs' r eq_refl Hin) as (h & A & B). exists h. split; [right; exact A|exact B].
+Qed.
+
+(* the general step: every region gains c r clones and then loses d r references, the handle table becomes hl *)
+Lemma inv_gen s reg' hl (c d : N -> nat) : Inv s ->
+  (forall r, reg' r = iter (d r) drop1 (iter (c r) clone1 (reg s r))) ->
+  (forall r, (0 < c r)%nat -> (0 < owners r s)%nat) ->
+  (forall r, (hrefs r hl + d r = hrefs r (handles s) + c r)%nat) ->
+  (forall a, snap_handles a hl = snap_handles a (handles s)) ->
+  Inv {| reg := reg'; nreg := nreg s; snaps := snaps s; handles := hl |}.
+Proof.
+  intros HI Hreg Hpos Hcnt Hsn.
+  set (s' := {| reg := reg'; nreg := nreg s; snaps := snaps s; handles := hl |}).
+  assert (Ow : forall r, (owners r s' + d r = owners r s + c r)%nat).
+  { intros r. unfold owners, s'; cbn [handles snaps]. specialize (Hcnt r). lia. }
+  constructor; cbn [s' reg nreg snaps handles]; fold s'.
+  - intros r Hr. rewrite Hreg. apply K_drop_iter. rewrite Ow. apply K_clone_iter; [apply (J_reg s HI); exact Hr|apply Hpos].
+  - intros r Hr. pose proof (J_fresh s HI r Hr) as Z. specialize (Ow r).
+    destruct (c r) eqn:C; [lia|]. specialize (Hpos r ltac:(lia)). lia.
+  - intros r Hr. rewrite Hreg.
+    destruct (iter_static drop1 (d r) (iter (c r) clone1 (reg s r)) drop1_static) as (A & _ & C).
+    destruct (iter_static clone1 (c r) (reg s r) clone1_static) as (A' & _ & C').
+    rewrite A, C, A', C'. apply (J_kind s HI); exact Hr.
+  - intros a sn H. rewrite Hsn. apply (J_snap s HI); exact H.
+  - intros a H. rewrite Hsn. apply (J_snapfresh s HI); exact H.
+Qed.
+Lemma snap_handles_snoc_map a l rs : snap_handles a (l ++ [Some (HMap rs)]) = snap_handles a l.
+Proof. rewrite snap_handles_app. cbn [snap_handles]. lia. Qed.
+Lemma drop_region_static x : r_kind (drop_region x) = r_kind x /\ r_slot (drop_region x) = r_slot x /\ r_owned (drop_region x) = r_owned x.
+Proof. unfold drop_region. destruct (r_owned x) eqn:E; cbn; rewrite ?E; repeat split. Qed.
+
 Lemma exec_Inv o s : Inv s -> Inv (fst (exec o s)).
 Proof.
-  intros HI. destruct o as [kind slot|hs|hm hr|hm base size|h|hm|h]; cbn [exec].
+  intros HI. destruct o as [kind slot|hs|hm hr|hm base size|h|hm|h|v slot|unwrap hs|hm hr]; cbn [exec].
   - (* Create *)
     cbn [fst].
     set (x := {| r_kind := kind; r_slot := slot; r_owned := negb (kind =? 2); r_strong := 1; r_live := true; r_unmaps := 0; r_ub := false |}).
@@ -397,6 +481,54 @@ Proof.
            ++ destruct (Nat.eqb_spec a0 a); [congruence|]. destruct (J_snap s HI a0 sn0 H0) as [A0 B0]. split; [lia|exact B0].
         -- intros a0 H0. rewrite set_nth_length in H0. pose proof (J_snapfresh s HI a0 H0) as Z.
            rewrite (snap_handles_set_none a0 _ h _ G) in Z. lia.
+  - (* CreateRefused *)
+    destruct (v <? 6); [exact HI|]. cbn [fst].
+    set (kind := (v - 6) mod 3).
+    set (built := {| r_kind := kind; r_slot := slot; r_owned := negb (kind =? 2); r_strong := 0; r_live := true; r_unmaps := 0; r_ub := false |}).
+    set (s' := {| reg := updf (reg s) (nreg s) (drop_region built); nreg := nreg s + 1; snaps := snaps s; handles := handles s |}).
+    assert (Ow : forall r, owners r s' = owners r s) by reflexivity.
+    constructor; cbn [s' reg nreg snaps handles]; fold s'.
+    + intros r Hr. rewrite Ow. unfold updf. destruct (N.eqb_spec r (nreg s)) as [->|Hn]; [|apply (J_reg s HI); lia].
+      rewrite (J_fresh s HI (nreg s)) by lia. unfold K, drop_region, built. cbn [r_owned].
+      destruct (negb (kind =? 2)) eqn:Eo; cbn; rewrite ?Eo; (split; [reflexivity|]); (split; [reflexivity|]).
+      * right. repeat split.
+      * split; reflexivity.
+    + intros r Hr. rewrite Ow. apply (J_fresh s HI). lia.
+    + intros r Hr. unfold updf. destruct (N.eqb_spec r (nreg s)) as [->|Hn]; [|apply (J_kind s HI); lia].
+      destruct (drop_region_static built) as (A & _ & C). rewrite A, C. reflexivity.
+    + apply (J_snap s HI).
+    + apply (J_snapfresh s HI).
+  - (* BuildMove *)
+    destruct (region_handles s hs) as [rs|] eqn:RH; [|exact HI].
+    destruct (nodupb hs && (if unwrap then all_sole (reg s) rs else true)) eqn:G; [|exact HI].
+    apply andb_true_iff in G. destruct G as [Hd _].
+    pose proof (region_handles_owned s hs rs RH) as Own. rewrite region_handles_rh in RH.
+    destruct (from_arc_regions_ok (reg s) rs); cbn [fst].
+    + apply (inv_gen s (reg s) _ (fun _ => O) (fun _ => O) HI); [reflexivity|intros r P; lia| |].
+      * intros r. destruct (kill_facts r hs (handles s) rs Hd RH) as [A _]. rewrite hrefs_app. cbn [hrefs href]. lia.
+      * intros a. rewrite snap_handles_snoc_map. apply (kill_facts 0 hs (handles s) rs Hd RH).
+    + apply (inv_gen s _ _ (fun _ => O) (fun r => count r rs) HI); [intros r; apply drop_arcs_at|intros r P; lia| |].
+      * intros r. destruct (kill_facts r hs (handles s) rs Hd RH) as [A _]. lia.
+      * intros a. apply (kill_facts 0 hs (handles s) rs Hd RH).
+  - (* InsertMove *)
+    destruct (get_handle s hm) as [[?|rs|?]|] eqn:G1; try exact HI.
+    destruct (get_handle s hr) as [[r0|?|?]|] eqn:G2; try exact HI.
+    apply get_handle_Some in G1. apply get_handle_Some in G2.
+    assert (Own : forall r, (0 < count r rs)%nat -> (0 < owners r s)%nat).
+    { intros r P. eapply handle_owned; [exact G1|]. exact P. }
+    assert (Cnt : forall r, count r (sort_by_start (clone_arcs rs (reg s)) (rs ++ [r0])) = (count r rs + (if N.eqb r r0 then 1 else 0))%nat).
+    { intros r. rewrite count_sort, count_app. cbn [count]. lia. }
+    assert (Hh : forall r, hrefs r (handles s) = (hrefs r (set_nth (handles s) hr None) + (if N.eqb r r0 then 1 else 0))%nat).
+    { intros r. rewrite (hrefs_set_none r _ hr _ G2). reflexivity. }
+    assert (Hs : forall a, snap_handles a (set_nth (handles s) hr None) = snap_handles a (handles s)).
+    { intros a. pose proof (snap_handles_set_none a _ hr _ G2) as Q. cbn [is_snap] in Q. lia. }
+    destruct (from_arc_regions_ok _ _); cbn [fst].
+    + apply (inv_gen s _ _ (fun r => count r rs) (fun _ => O) HI); [intros r; apply clone_arcs_at|exact Own| |].
+      * intros r. rewrite hrefs_app. cbn [hrefs href]. rewrite Cnt, (Hh r). lia.
+      * intros a. rewrite snap_handles_snoc_map. apply Hs.
+    + apply (inv_gen s _ _ (fun r => count r rs) (fun r => count r (sort_by_start (clone_arcs rs (reg s)) (rs ++ [r0]))) HI);
+        [intros r; rewrite drop_arcs_at, clone_arcs_at; reflexivity|exact Own| |exact Hs].
+      intros r. rewrite Cnt, (Hh r). lia.
 Qed.
 
 Lemma run_from_Inv l : forall s, Inv s -> Inv (run_from l s).
@@ -918,3 +1050,356 @@ Qed.
 
 Lemma C12_model_ok_lemma : forall ops, ok_C12 ops (run_C12 ops) = true.
 Proof. intros ops. apply ok_from_sim; [apply Inv_init|apply Sim_init]. Qed.
+
+(* ================================================================== refusals and consumed arguments
+   (operations WCreateRefused / WBuildMove / WInsertMove of the extended checker) *)
+Lemma snodup_nodupb l : snodup l = nodupb l.
+Proof. induction l as [|x t IH]; cbn [snodup nodupb]; [reflexivity|rewrite IH; reflexivity]. Qed.
+Lemma F2_kill SN : forall l hs ks, Forall2 (hsim SN) hs ks -> Forall2 (hsim SN) (kill l hs) (skill l ks).
+Proof. induction l as [|h t IH]; intros hs ks H; cbn [kill skill]; [exact H|]. apply IH, F2_set_none, H. Qed.
+
+Definition op_goalr (o : wopr) (s : state) (k : sstate) : Prop :=
+  exists k', spec_opr k o (obs_of_result (snd (wexecr o s)) (fst (wexecr o s))) = Some k' /\ Sim (fst (wexecr o s)) k'.
+
+Ltac quietr HS := cbn [fst snd obs_of_result w_st w_val]; lits; eexists; split; [reflexivity|exact HS].
+
+Lemma op_createrefused v slot s k : Inv s -> Sim s k -> op_goalr (WCreateRefused v slot) s k.
+Proof.
+  intros HI HS. unfold op_goalr, wexecr. cbn [opr_of exec spec_opr].
+  destruct (v <? 6) eqn:Ev; cbn [fst snd obs_of_result w_st w_val]; lits; cbn [orb andb].
+  - eexists. split; [reflexivity|exact HS].
+  - eexists. split; [reflexivity|].
+    set (kind := (v - 6) mod 3).
+    set (built := {| r_kind := kind; r_slot := slot; r_owned := negb (kind =? 2); r_strong := 0; r_live := true; r_unmaps := 0; r_ub := false |}).
+    constructor; cbn [nreg reg snaps handles k_kinds k_hs].
+    + rewrite app_length. cbn [length]. rewrite <- (M_n s k HS). lia.
+    + intros r Hr. unfold kind_of, slot_of, updf. cbn [k_kinds].
+      destruct (N.eqb_spec r (nreg s)) as [->|Hn].
+      * rewrite <- (M_n s k HS), Nat2N.id, app_nth2, Nat.sub_diag by lia. cbn [nth fst snd].
+        destruct (drop_region_static built) as (A & B & _). rewrite A, B. split; reflexivity.
+      * assert (Hlt : r < nreg s) by lia. rewrite app_nth1 by (rewrite <- (M_n s k HS) in Hlt; lia).
+        apply (M_kind s k HS r Hlt).
+    + apply (M_hs s k HS).
+Qed.
+
+Lemma op_buildmove unwrap hs s k : Inv s -> Sim s k -> op_goalr (WBuildMove unwrap hs) s k.
+Proof.
+  intros HI HS. unfold op_goalr, wexecr. cbn [opr_of exec spec_opr]. rewrite (region_handles_sim s k HS), snodup_nodupb.
+  destruct (region_handles s hs) as [rs|]; [|quietr HS].
+  destruct (nodupb hs) eqn:Hd; cbn [andb]; [|quietr HS].
+  destruct (if unwrap then all_sole (reg s) rs else true) eqn:Hu.
+  2:{ destruct unwrap; [|discriminate]. cbn [fst snd obs_of_result w_st w_val]. lits. cbn [andb]. eexists. split; [reflexivity|exact HS]. }
+  destruct (from_arc_regions_ok (reg s) rs); cbn [fst snd obs_of_result w_st w_val]; lits.
+  - rewrite N.eqb_refl. eexists. split; [reflexivity|].
+    constructor; cbn [nreg reg snaps handles k_kinds k_hs].
+    + apply (M_n s k HS).
+    + apply (M_kind s k HS).
+    + apply Forall2_app; [apply F2_kill, (M_hs s k HS)|]. constructor; [|constructor]. cbn [hsim]. apply Permutation_refl.
+  - eexists. split; [reflexivity|].
+    constructor; cbn [nreg reg snaps handles k_kinds k_hs].
+    + apply (M_n s k HS).
+    + intros r Hr. destruct (drop_arcs_static rs (reg s) r) as [A B]. rewrite A, B. apply (M_kind s k HS r Hr).
+    + apply F2_kill, (M_hs s k HS).
+Qed.
+
+Lemma op_insertmove hm hr s k : Inv s -> Sim s k -> op_goalr (WInsertMove hm hr) s k.
+Proof.
+  intros HI HS. unfold op_goalr, wexecr. cbn [opr_of exec spec_opr].
+  pose proof (lookup_sim s k hm HS) as L1. pose proof (lookup_sim s k hr HS) as L2.
+  destruct (get_handle s hm) as [[r1|rs|a1]|], (k_get k hm) as [[r1'|rs'|rs1']|]; cbn [hsim] in L1; try contradiction;
+    try (quietr HS).
+  destruct (get_handle s hr) as [[r|rs2|a2]|], (k_get k hr) as [[r'|rs2'|rs2']|]; cbn [hsim] in L2; try contradiction;
+    try (quietr HS).
+  subst r'. cbv zeta.
+  set (f1 := clone_arcs rs (reg s)).
+  assert (St : same_static f1 (reg s)) by apply clone_arcs_static.
+  assert (P : Permutation (sort_by_start f1 (rs ++ [r])) (r :: rs')).
+  { eapply perm_trans; [apply sort_perm|]. eapply perm_trans; [apply Permutation_sym, Permutation_cons_append|].
+    apply perm_skip. exact L1. }
+  destruct (from_arc_regions_ok f1 (sort_by_start f1 (rs ++ [r]))); cbn [fst snd obs_of_result w_st w_val]; lits.
+  - rewrite (mask_of_perm _ _ P), N.eqb_refl. eexists. split; [reflexivity|].
+    constructor; cbn [nreg reg snaps handles k_kinds k_hs].
+    + apply (M_n s k HS).
+    + intros r0 Hr. destruct (St r0) as [A B]. rewrite A, B. apply (M_kind s k HS r0 Hr).
+    + apply Forall2_app; [apply F2_set_none, (M_hs s k HS)|]. constructor; [|constructor]. exact P.
+  - eexists. split; [reflexivity|].
+    constructor; cbn [nreg reg snaps handles k_kinds k_hs].
+    + apply (M_n s k HS).
+    + intros r0 Hr. destruct (drop_arcs_static (sort_by_start f1 (rs ++ [r])) f1 r0) as [A B]. destruct (St r0) as [A' B'].
+      rewrite A, B, A', B'. apply (M_kind s k HS r0 Hr).
+    + apply F2_set_none, (M_hs s k HS).
+Qed.
+
+Lemma op_simr o s k : Inv s -> Sim s k -> op_goalr o s k.
+Proof.
+  intros HI HS. destruct o as [w|v slot|unwrap hs|hm hr].
+  - exact (op_sim w s k HI HS).
+  - apply op_createrefused; assumption.
+  - apply op_buildmove; assumption.
+  - apply op_insertmove; assumption.
+Qed.
+Lemma wexecr_Inv o s : Inv s -> Inv (fst (wexecr o s)).
+Proof. intros HI. unfold wexecr. destruct (opr_of o) as [o'|]; [apply exec_Inv; exact HI|exact HI]. Qed.
+
+Lemma ok_fromr_sim : forall ops s k, Inv s -> Sim s k -> ok_fromr k ops (run_wr s ops) = true.
+Proof.
+  induction ops as [|o ops IH]; intros s k HI HS; cbn [run_wr ok_fromr]; [reflexivity|].
+  destruct (op_simr o s k HI HS) as (k' & E & HS'). pose proof (wexecr_Inv o s HI) as HI'.
+  destruct (wexecr o s) as [s' r]. cbn [fst snd] in *. cbn [ok_fromr]. unfold spec_stepr. rewrite E.
+  replace (w_live (obs_of_result r s')) with (mask_live s') by (destruct r; reflexivity).
+  rewrite (live_sim s' k' HI' HS'), N.eqb_refl. apply IH; assumption.
+Qed.
+
+Lemma C12r_model_ok_lemma : forall ops, ok_C12r ops (run_C12r ops) = true.
+Proof. intros ops. apply ok_fromr_sim; [apply Inv_init|apply Sim_init]. Qed.
+
+(* ================================================================== what a refused operation leaves behind *)
+Lemma drop_clone1 x : (0 < r_strong x)%nat -> drop1 (clone1 x) = x.
+Proof.
+  intros H. destruct x as [k sl ow st lv um ub]. cbn [r_strong] in H. unfold clone1, drop1, with_strong. cbn.
+  destruct st as [|n]; [lia|reflexivity].
+Qed.
+Lemma drop_clone_cancel c : forall x, ((0 < c)%nat -> (0 < r_strong x)%nat) -> iter c drop1 (iter c clone1 x) = x.
+Proof.
+  induction c as [|c IH]; intros x H; [reflexivity|].
+  rewrite (iter_succ_r c clone1 x). cbn [iter]. rewrite IH by (intros _; cbn; lia). apply drop_clone1. apply H. lia.
+Qed.
+Lemma nth_error_kill : forall hs l i, ~ In i hs -> nth_error (kill hs l) i = nth_error l i.
+Proof.
+  induction hs as [|h t IH]; intros l i Hn; cbn [kill]; [reflexivity|].
+  rewrite IH by (intros Hc; apply Hn; right; exact Hc). rewrite nth_error_set_nth.
+  destruct (Nat.eqb_spec h i) as [->|_]; [exfalso; apply Hn; left; reflexivity|reflexivity].
+Qed.
+Lemma nth_error_kill_in : forall hs l i, In i hs -> (i < length l)%nat -> nth_error (kill hs l) i = Some None.
+Proof.
+  induction hs as [|h t IH]; intros l i Hin Hl; [destruct Hin|]. cbn [kill].
+  destruct (in_dec Nat.eq_dec i t) as [Ht|Ht]; [apply IH; [exact Ht|rewrite set_nth_length; exact Hl]|].
+  destruct Hin as [->|Hin]; [|contradiction]. rewrite nth_error_kill by exact Ht. rewrite nth_error_set_nth, Nat.eqb_refl.
+  destruct (nth_error l i) eqn:E; [reflexivity|]. apply nth_error_None in E. lia.
+Qed.
+
+(* the regions a consumed argument of [o] reaches in state s *)
+Definition consumed_reaches (s : state) (o : op) (r : N) : Prop :=
+  exists h hd, In h (consumed o) /\ get_handle s h = Some hd /\ In r (reach_list s hd).
+
+Lemma strong_pos_of_count s r c : Inv s -> r < nreg s \/ True -> ((0 < c)%nat -> (0 < owners r s)%nat) ->
+  (0 < c)%nat -> (0 < r_strong (reg s r))%nat.
+Proof.
+  intros HI _ Hp Hc. specialize (Hp Hc).
+  destruct (N.lt_ge_cases r (nreg s)) as [L|L]; [|rewrite (J_fresh s HI r L) in Hp; lia].
+  destruct (J_reg s HI r L) as (A & _). lia.
+Qed.
+
+Lemma refused_unchanged_gen s o : Inv s -> snd (exec o s) = Failed ->
+  snaps (fst (exec o s)) = snaps s /\
+  (forall i, ~ In i (consumed o) -> nth_error (handles (fst (exec o s))) i = nth_error (handles s) i) /\
+  (forall i, In i (consumed o) -> get_handle (fst (exec o s)) i = None) /\
+  (forall r, r < nreg s -> ~ consumed_reaches s o r -> reg (fst (exec o s)) r = reg s r).
+Proof.
+  intros HI. destruct o as [kind slot|hs|hm hr|hm base size|h|hm|h|v slot|unwrap hs|hm hr]; cbn [exec consumed].
+  - discriminate.
+  - (* Build: the clones are dropped again *)
+    destruct (region_handles s hs) as [rs|] eqn:RH; [|discriminate].
+    destruct (from_arc_regions_ok (clone_arcs rs (reg s)) rs); [discriminate|]. intros _. cbn [fst with_reg snaps handles reg].
+    split; [reflexivity|]. split; [reflexivity|]. split; [intros i []|]. intros r Hr _.
+    rewrite drop_arcs_at, clone_arcs_at. apply drop_clone_cancel.
+    apply (strong_pos_of_count s r _ HI (or_intror I)). intros P. apply (region_handles_owned s hs rs RH). apply count_pos_In, P.
+  - (* Insert *)
+    destruct (get_handle s hm) as [[?|rs|?]|] eqn:G1; try discriminate.
+    destruct (get_handle s hr) as [[r0|?|?]|] eqn:G2; try discriminate.
+    apply get_handle_Some in G1. apply get_handle_Some in G2.
+    destruct (from_arc_regions_ok _ _); [discriminate|]. intros _. cbn [fst with_reg snaps handles reg].
+    split; [reflexivity|]. split; [reflexivity|]. split; [intros i []|]. intros r Hr _.
+    change (updf (clone_arcs rs (reg s)) r0 (clone1 (clone_arcs rs (reg s) r0))) with (clone_arcs [r0] (clone_arcs rs (reg s))).
+    rewrite drop_arcs_at, !clone_arcs_at, count_sort, count_app.
+    set (x := reg s r). cbn [count]. rewrite Nat.add_0_r.
+    assert (E : iter (if N.eqb r r0 then 1 else 0)%nat clone1 (iter (count r rs) clone1 x) = iter (count r rs + (if N.eqb r r0 then 1 else 0)) clone1 x).
+    { destruct (N.eqb r r0); [rewrite Nat.add_1_r; reflexivity|rewrite Nat.add_0_r; reflexivity]. }
+    rewrite E. apply drop_clone_cancel.
+    apply (strong_pos_of_count s r _ HI (or_intror I)). intros P.
+    destruct (count r rs) eqn:C.
+    + destruct (N.eqb_spec r r0) as [->|]; [|cbn in P; lia]. eapply handle_owned; [exact G2|]. cbn [href]. rewrite N.eqb_refl. lia.
+    + eapply handle_owned; [exact G1|]. cbn [href]. lia.
+  - (* Remove *)
+    destruct (get_handle s hm) as [[?|rs|?]|]; try discriminate.
+    destruct (find_start (reg s) base rs) as [i|].
+    + destruct (size =? PAGE); [discriminate|]. intros _. cbn [fst]. repeat split; try reflexivity. intros i0 [].
+    + intros _. cbn [fst]. repeat split; try reflexivity. intros i0 [].
+  - destruct (get_handle s h) as [[r0|rs|a]|]; try discriminate. destruct (nth_error (snaps s) a); discriminate.
+  - destruct (get_handle s hm) as [[?|rs|?]|]; discriminate.
+  - destruct (get_handle s h) as [[r0|rs|a]|]; try discriminate.
+    destruct (nth_error (snaps s) a) as [sn|]; [|discriminate]. destruct (s_strong sn) as [|[|n]]; discriminate.
+  - (* CreateRefused *)
+    destruct (v <? 6); intros _; cbn [fst snaps handles reg].
+    + repeat split; try reflexivity. intros i [].
+    + split; [reflexivity|]. split; [reflexivity|]. split; [intros i []|]. intros r Hr _.
+      unfold updf. destruct (N.eqb_spec r (nreg s)); [lia|reflexivity].
+  - (* BuildMove: the moved handles are gone, their references dropped *)
+    destruct (region_handles s hs) as [rs|] eqn:RH; [|discriminate].
+    destruct (nodupb hs && (if unwrap then all_sole (reg s) rs else true)); [|discriminate].
+    destruct (from_arc_regions_ok (reg s) rs); [discriminate|]. intros _. cbn [fst snaps handles reg].
+    rewrite region_handles_rh in RH.
+    split; [reflexivity|]. split; [intros i Hn; apply nth_error_kill; exact Hn|]. split.
+    + intros i Hin. unfold get_handle. cbn [handles].
+      destruct (rh_l_lookup _ _ _ i RH Hin) as (r & En & _).
+      rewrite nth_error_kill_in; [reflexivity|exact Hin|]. apply nth_error_Some. congruence.
+    + intros r Hr Hn. rewrite drop_arcs_at.
+      destruct (count r rs) eqn:C; [reflexivity|exfalso]. apply Hn.
+      assert (Hin : In r rs) by (apply count_pos_In; lia).
+      destruct (rh_l_In _ _ _ r RH Hin) as (h & Hh & En).
+      exists h, (HRegion r). split; [exact Hh|]. split; [unfold get_handle; rewrite En; reflexivity|left; reflexivity].
+  - (* InsertMove *)
+    destruct (get_handle s hm) as [[?|rs|?]|] eqn:G1; try discriminate.
+    destruct (get_handle s hr) as [[r0|?|?]|] eqn:G2; try discriminate.
+    destruct (from_arc_regions_ok _ _); [discriminate|]. intros _. cbn [fst snaps handles reg].
+    split; [reflexivity|]. split; [|split].
+    + intros i Hn. rewrite nth_error_set_nth. destruct (Nat.eqb_spec hr i) as [->|_]; [exfalso; apply Hn; left; reflexivity|reflexivity].
+    + intros i [<-|[]]. unfold get_handle. cbn [handles]. rewrite nth_error_set_nth, Nat.eqb_refl.
+      apply get_handle_Some in G2. rewrite G2. reflexivity.
+    + intros r Hr Hn.
+      assert (Hne : r <> r0).
+      { intros ->. apply Hn. exists hr, (HRegion r0). split; [left; reflexivity|]. split; [exact G2|left; reflexivity]. }
+      apply get_handle_Some in G1.
+      rewrite drop_arcs_at, clone_arcs_at, count_sort, count_app. cbn [count].
+      destruct (N.eqb_spec r r0) as [|_]; [contradiction|]. rewrite !Nat.add_0_r. apply drop_clone_cancel.
+      apply (strong_pos_of_count s r _ HI (or_intror I)). intros P. eapply handle_owned; [exact G1|exact P].
+Qed.
+
+Lemma refused_unchanged_lemma : forall l o, snd (exec o (run l)) = Failed ->
+  snaps (fst (exec o (run l))) = snaps (run l) /\
+  (forall i, ~ In i (consumed o) -> nth_error (handles (fst (exec o (run l)))) i = nth_error (handles (run l)) i) /\
+  (forall i, In i (consumed o) -> get_handle (fst (exec o (run l))) i = None) /\
+  (forall r, r < nreg (run l) -> ~ consumed_reaches (run l) o r -> reg (fst (exec o (run l))) r = reg (run l) r).
+Proof. intros l o. apply refused_unchanged_gen, run_Inv. Qed.
+
+Lemma run_snoc l o : run (l ++ [o]) = fst (exec o (run l)).
+Proof.
+  unfold run. generalize init. induction l as [|x l IH]; intros s; cbn [app run_from]; [reflexivity|apply IH].
+Qed.
+
+(* a refused creation: no handle, nothing else touched; what GuestRegionMmap::new consumed is unmapped exactly once
+   (or, if external, left alone) *)
+Lemma refused_create_lemma : forall l v slot,
+  let s := run l in let s' := fst (exec (CreateRefused v slot) s) in
+  snd (exec (CreateRefused v slot) s) = Failed /\ handles s' = handles s /\ snaps s' = snaps s /\
+  (forall r, r < nreg s -> reg s' r = reg s r) /\
+  (v < 6 -> s' = s) /\
+  (6 <= v -> nreg s' = nreg s + 1 /\ ~ reaches s' (nreg s) /\
+     let x := reg s' (nreg s) in
+     r_kind x = (v - 6) mod 3 /\ r_strong x = O /\
+     (r_kind x <> 2 -> r_live x = false /\ r_unmaps x = 1%nat) /\
+     (r_kind x = 2 -> r_live x = true /\ r_unmaps x = O)).
+Proof.
+  intros l v slot s s'. unfold s'. cbn [exec]. destruct (N.ltb_spec v 6) as [Hlt|Hge]; cbn [fst snd].
+  - repeat split; try reflexivity; exfalso; lia.
+  - split; [reflexivity|]. split; [reflexivity|]. split; [reflexivity|]. split.
+    { intros r Hr. cbn [reg]. unfold updf. destruct (N.eqb_spec r (nreg s)); [lia|reflexivity]. }
+    split; [intros Hx; lia|]. intros _. cbn [nreg reg]. split; [reflexivity|]. split.
+    + (* nothing reaches the new id: it is fresh in s, and the handles / snapshots are those of s *)
+      intros (i & h & A & B). cbn [handles] in A.
+      assert (R : reaches s (nreg s)).
+      { exists i, h. split; [exact A|]. destruct h as [r'|rs|a]; cbn [reach_list snaps] in *; exact B. }
+      apply (owners_pos_iff_reaches_gen s (nreg s) (run_Inv l)) in R.
+      rewrite (J_fresh s (run_Inv l) (nreg s)) in R by lia. lia.
+    + unfold updf. rewrite N.eqb_refl. unfold drop_region. cbn [r_owned].
+      destruct (N.eqb_spec ((v - 6) mod 3) 2) as [E|E]; cbn [negb r_kind r_strong r_live r_unmaps].
+      * repeat split; try reflexivity; try (intros; congruence).
+      * repeat split; try reflexivity; try (intros; congruence).
+Qed.
+
+Lemma refused_consumed_lemma : forall l o r, r < nreg (run (l ++ [o])) -> r_kind (reg (run (l ++ [o])) r) <> 2 ->
+  (r_live (reg (run (l ++ [o])) r) = true <-> reaches (run (l ++ [o])) r) /\
+  (r_unmaps (reg (run (l ++ [o])) r) <= 1)%nat /\
+  (r_unmaps (reg (run (l ++ [o])) r) = 1%nat <-> ~ reaches (run (l ++ [o])) r).
+Proof.
+  intros l o r Hr Hk. split; [apply live_iff_owner_lemma; assumption|].
+  destruct (unmapped_once_lemma (l ++ [o]) r Hr) as [A B]. split; [exact A|]. apply (B Hk).
+Qed.
+
+(* ================================================================== locality: an operation touches only the records
+   of the regions its argument handles reach.  In particular the munmap of a Drop hits the dropped handle's own
+   regions and NO other mapping ("unmapped exactly once, nothing else touched"). *)
+Definition args_reach (s : state) (o : op) (r : N) : Prop :=
+  exists h hd, In h (args o) /\ get_handle s h = Some hd /\ In r (reach_list s hd).
+
+Lemma count_zero_notin r l : ~ In r l -> count r l = O.
+Proof. intros H. destruct (count r l) eqn:C; [reflexivity|]. exfalso. apply H, count_pos_In. lia. Qed.
+Lemma clone_arcs_notin rs f r : ~ In r rs -> clone_arcs rs f r = f r.
+Proof. intros H. rewrite clone_arcs_at, (count_zero_notin r rs H). reflexivity. Qed.
+Lemma drop_arcs_notin rs f r : ~ In r rs -> drop_arcs rs f r = f r.
+Proof. intros H. rewrite drop_arcs_at, (count_zero_notin r rs H). reflexivity. Qed.
+Lemma region_handles_reach s hs rs r : region_handles s hs = Some rs -> In r rs ->
+  exists h, In h hs /\ get_handle s h = Some (HRegion r).
+Proof.
+  intros RH Hin. rewrite region_handles_rh in RH. destruct (rh_l_In _ _ _ r RH Hin) as (h & A & B).
+  exists h. split; [exact A|]. unfold get_handle. rewrite B. reflexivity.
+Qed.
+Lemma sort_In f r l : In r (sort_by_start f l) <-> In r l.
+Proof. split; apply Permutation_in; [apply sort_perm|apply Permutation_sym, sort_perm]. Qed.
+
+Lemma op_local_gen s o r : r < nreg s -> ~ args_reach s o r -> reg (fst (exec o s)) r = reg s r.
+Proof.
+  intros Hr Hn.
+  assert (Via : forall h hd, In h (args o) -> get_handle s h = Some hd -> ~ In r (reach_list s hd)).
+  { intros h hd A B C. apply Hn. exists h, hd. repeat split; assumption. }
+  destruct o as [kind slot|hs|hm hr|hm base size|h|hm|h|v slot|unwrap hs|hm hr]; cbn [exec args] in *.
+  - cbn [fst reg]. unfold updf. destruct (N.eqb_spec r (nreg s)); [lia|reflexivity].
+  - destruct (region_handles s hs) as [rs|] eqn:RH; [|reflexivity].
+    assert (Nin : ~ In r rs).
+    { intros Hin. destruct (region_handles_reach s hs rs r RH Hin) as (h & A & B). apply (Via h _ A B). left. reflexivity. }
+    destruct (from_arc_regions_ok _ _); cbn [fst push with_reg reg].
+    + apply clone_arcs_notin, Nin.
+    + rewrite drop_arcs_notin by exact Nin. apply clone_arcs_notin, Nin.
+  - destruct (get_handle s hm) as [[?|rs|?]|] eqn:G1; try reflexivity.
+    destruct (get_handle s hr) as [[r0|?|?]|] eqn:G2; try reflexivity.
+    assert (N1 : ~ In r rs) by (apply (Via hm _ (or_introl eq_refl) G1)).
+    assert (N2 : r <> r0) by (intros ->; apply (Via hr _ (or_intror (or_introl eq_refl)) G2); left; reflexivity).
+    assert (E : updf (clone_arcs rs (reg s)) r0 (clone1 (clone_arcs rs (reg s) r0)) r = reg s r).
+    { unfold updf. destruct (N.eqb_spec r r0); [contradiction|]. apply clone_arcs_notin, N1. }
+    destruct (from_arc_regions_ok _ _); cbn [fst push with_reg reg]; [exact E|].
+    rewrite drop_arcs_notin; [exact E|]. rewrite sort_In. intros Hin. apply in_app_or in Hin. destruct Hin as [Hin|[<-|[]]]; [contradiction|congruence].
+  - destruct (get_handle s hm) as [[?|rs|?]|] eqn:G1; try reflexivity.
+    destruct (find_start (reg s) base rs) as [i|]; [|reflexivity]. destruct (size =? PAGE); [|reflexivity].
+    cbn [fst push reg]. apply clone_arcs_notin. apply (Via hm _ (or_introl eq_refl) G1).
+  - destruct (get_handle s h) as [[r0|rs|a]|] eqn:G; try reflexivity.
+    + cbn [fst push reg]. unfold updf. destruct (N.eqb_spec r r0) as [->|]; [|reflexivity].
+      exfalso. apply (Via h _ (or_introl eq_refl) G). left. reflexivity.
+    + cbn [fst push reg]. apply clone_arcs_notin. apply (Via h _ (or_introl eq_refl) G).
+    + destruct (nth_error (snaps s) a); reflexivity.
+  - destruct (get_handle s hm) as [[?|rs|?]|] eqn:G; try reflexivity.
+    cbn [fst reg]. apply clone_arcs_notin. apply (Via hm _ (or_introl eq_refl) G).
+  - destruct (get_handle s h) as [[r0|rs|a]|] eqn:G; try reflexivity.
+    + cbn [fst reg]. unfold updf. destruct (N.eqb_spec r r0) as [->|]; [|reflexivity].
+      exfalso. apply (Via h _ (or_introl eq_refl) G). left. reflexivity.
+    + cbn [fst reg]. apply drop_arcs_notin. apply (Via h _ (or_introl eq_refl) G).
+    + pose proof (Via h _ (or_introl eq_refl) G) as Nin. cbn [reach_list] in Nin.
+      destruct (nth_error (snaps s) a) as [sn|]; [|reflexivity].
+      destruct (s_strong sn) as [|[|n]]; cbn [fst reg]; try reflexivity. apply drop_arcs_notin, Nin.
+  - destruct (v <? 6); [reflexivity|]. cbn [fst reg]. unfold updf. destruct (N.eqb_spec r (nreg s)); [lia|reflexivity].
+  - destruct (region_handles s hs) as [rs|] eqn:RH; [|reflexivity].
+    assert (Nin : ~ In r rs).
+    { intros Hin. destruct (region_handles_reach s hs rs r RH Hin) as (h & A & B). apply (Via h _ A B). left. reflexivity. }
+    destruct (nodupb hs && _); [|reflexivity].
+    destruct (from_arc_regions_ok _ _); cbn [fst reg]; [reflexivity|]. apply drop_arcs_notin, Nin.
+  - destruct (get_handle s hm) as [[?|rs|?]|] eqn:G1; try reflexivity.
+    destruct (get_handle s hr) as [[r0|?|?]|] eqn:G2; try reflexivity.
+    assert (N1 : ~ In r rs) by (apply (Via hm _ (or_introl eq_refl) G1)).
+    assert (N2 : r <> r0) by (intros ->; apply (Via hr _ (or_intror (or_introl eq_refl)) G2); left; reflexivity).
+    destruct (from_arc_regions_ok _ _); cbn [fst reg]; [apply clone_arcs_notin, N1|].
+    rewrite drop_arcs_notin; [apply clone_arcs_notin, N1|]. rewrite sort_In. intros Hin. apply in_app_or in Hin.
+    destruct Hin as [Hin|[<-|[]]]; [contradiction|congruence].
+Qed.
+
+Lemma op_local_lemma : forall l o r, r < nreg (run l) -> ~ args_reach (run l) o r ->
+  reg (run (l ++ [o])) r = reg (run l) r.
+Proof. intros l o r Hr Hn. rewrite run_snoc. apply op_local_gen; assumption. Qed.
+
+(* the drop of a handle, spelled out: every region the handle does not reach keeps its record - mapping state,
+   munmap count, strong count *)
+Lemma drop_local_lemma : forall l h r, r < nreg (run l) ->
+  (forall hd, get_handle (run l) h = Some hd -> ~ In r (reach_list (run l) hd)) ->
+  reg (run (l ++ [DropH h])) r = reg (run l) r.
+Proof.
+  intros l h r Hr Hn. apply op_local_lemma; [exact Hr|]. intros (h' & hd & A & B & C). cbn [args] in A.
+  destruct A as [<-|[]]. exact (Hn hd B C).
+Qed.
